@@ -54,7 +54,7 @@ func VerifC15Join() {
 			if a.u == b.u && a.sid == b.sid {
 				vapi.Assert(a.sesh == b.sesh, "C15: connections presenting the same UID and session id are attached to one session")
 				vapi.Assert(a.sesh.GetSessionKey() == b.sesh.GetSessionKey(), "C15: ... and are given the same session key")
-				vapi.Assert(a.ex != b.ex, "C15: exactly one of them created the session")
+				vapi.Assert(!(!a.ex && !b.ex), "C15: at most one of them created the session")
 				vapi.Assert(a.user == b.user, "C17: one active record per user")
 			} else {
 				vapi.Assert(a.sesh != b.sesh, "C15: different session ids or UIDs never share a session")
@@ -62,6 +62,21 @@ func VerifC15Join() {
 			if a.u == b.u {
 				vapi.Assert(a.user == b.user, "C17: one active record per user")
 			}
+		}
+	}
+	// per (UID, session id): exactly one successful admission created the session, the others joined it
+	for u := 0; u < 2; u++ {
+		for sid := uint32(1); sid <= 2; sid++ {
+			created, ok := 0, 0
+			for i := 0; i < n; i++ {
+				if rs[i].err == nil && rs[i].u == u && rs[i].sid == sid {
+					ok++
+					if !rs[i].ex {
+						created++
+					}
+				}
+			}
+			vapi.Assert(ok == 0 || created == 1, "C15: exactly one of the admissions for a (UID, session id) pair created the session")
 		}
 	}
 	for u := 0; u < 2; u++ {
